@@ -279,6 +279,16 @@ Proof.
   intros Hs Hu. unfold vd_key, i64_of_u64. rewrite Hs. destruct (Z.ltb_spec (unmarshal_unsigned s d) (2 ^ 63)); lia.
 Qed.
 
+Lemma vd_suffix_def s d :
+  vd_suffix s d = match unmarshal_value_description s d with Some t => [Lit t_space; Lit t] | None => [] end.
+Proof. reflexivity. Qed.
+
+Lemma unmarshal_value_description_key s d :
+  unmarshal_value_description s d =
+  value_description (s_value_descriptions s)
+    (if s_signed s then unmarshal_signed s d else i64_of_u64 (unmarshal_unsigned s d)).
+Proof. apply unmarshal_value_description_spec. Qed.
+
 Theorem vd_suffix_spec s d :
   vd_suffix s d =
   match value_description (s_value_descriptions s) (vd_key s d) with
@@ -307,6 +317,20 @@ Proof.
   intros Hl Hs v. unfold json_signal_value, vd_key. rewrite Hs.
   destruct (Z.eqb_spec (s_length s) 1); [contradiction|]. reflexivity.
 Qed.
+
+Corollary json_value_unsigned_key s d :
+  s_length s <> 1 -> s_signed s = false ->
+  let u := unmarshal_unsigned s d in
+  json_signal_value uint_to_json s d =
+  (dec_u u, to_physical s (f64_of_Z u), value_description (s_value_descriptions s) (i64_of_u64 u)).
+Proof. intros Hl Hs. rewrite (json_value_unsigned s d Hl Hs). unfold vd_key. rewrite Hs. reflexivity. Qed.
+
+Corollary json_value_signed_key uj s d :
+  s_length s <> 1 -> s_signed s = true ->
+  let v := unmarshal_signed s d in
+  json_signal_value uj s d =
+  (dec_s v, to_physical s (f64_of_Z v), value_description (s_value_descriptions s) v).
+Proof. intros Hl Hs. rewrite (json_value_signed uj s d Hl Hs). unfold vd_key. rewrite Hs. reflexivity. Qed.
 
 Theorem json_value_bool uj s d :
   s_length s = 1 ->
@@ -538,6 +562,19 @@ End Validity.
 
 Lemma uint_to_json_number u : json_number (uint_to_json u).
 Proof. apply dec_json_number. Qed.
+
+(** the statement for canjson.Marshal after F7, hypotheses first *)
+Corollary json_render_valid_fixed (rG rF : Z -> bytes) (rJ : bytes -> bytes) (rD : Z -> bytes) :
+  (forall p : f64, is_finite p = true -> json_number (rF (bits_of_f64 p))) ->
+  (forall b, json_string (rJ b)) ->
+  forall m d segs,
+  Forall (fun s => json_plain_name (s_name s)) (msg_signals m) ->
+  json_render_with uint_to_json m d = Some segs ->
+  json_value (render rG rF rJ rD segs).
+Proof.
+  intros HF HJ m d segs Hn H.
+  exact (json_render_valid rG rF rJ rD HF HJ uint_to_json m d segs uint_to_json_number Hn H).
+Qed.
 
 (** Marshal fails exactly when a physical value is not finite (never, for finite scale/offset/min/
     max of moderate size: DESIGN.md 4.3) *)
